@@ -793,6 +793,40 @@ pub fn record(args: &[String]) -> i32 {
             made_groups += 1;
         }
     }
+    // C07 beyond the specification's subset: seeded garbage and edited expressions that happen to evaluate to
+    // a node-set; only the structure of the result is judged (event kind "struct")
+    let n_struct: usize = arg_value(args, "--struct").and_then(|s| s.parse().ok()).unwrap_or(0);
+    let mut made_struct = 0;
+    let mut tries = 0;
+    while made_struct < n_struct && tries < n_struct * 200 {
+        let tree = gen_tree(&mut rng);
+        let text = ser(&tree);
+        let doc = match load_doc(&text, &tree) {
+            Ok(d) => d,
+            Err(_) => continue,
+        };
+        let valid: Vec<String> = (0..6)
+            .map(|_| {
+                let depth = rng.gen_range(1..4);
+                let mut g = ExprGen { rng: &mut rng, scalar: false };
+                let ast = g.nodeset(depth, true);
+                unparse(&ast, &Style { abbrev: true, ws: 0, parens: false })
+            })
+            .collect();
+        for _ in 0..40 {
+            tries += 1;
+            let expr = super::total::garbage(&mut rng, &valid);
+            let obs = eval_fresh(&doc, &expr, &json!([]));
+            if obs["t"] == "nodes" && obs["v"].as_array().map(|a| a.len() >= 2).unwrap_or(false) {
+                let ev = json!({"k": "struct", "tree": tree, "text": string_to_cps(&text), "expr": string_to_cps(&expr), "obs": obs});
+                writeln!(wtr, "{}", ev).unwrap();
+                made_struct += 1;
+                if made_struct >= n_struct {
+                    break;
+                }
+            }
+        }
+    }
     wtr.flush().unwrap();
     0
 }
